@@ -11,8 +11,9 @@ def bounded(tier, seed, known):
     s, v = standin.module_standin("C16", "oracles.misc_oracles", ["C16", seed, n],
                                   "lock-step comparison of ir.modules / node sets / symbolic_expressions with built-in "
                                   "list / set / dict over the full MutableSequence / MutableSet / MutableMapping surface "
-                                  "(return values, contents, exception types, ownership consistency after every call); "
-                                  "inputs of known finding F-C04-1 excluded",
+                                  "(return values, contents, exception types, ownership consistency after every call), incl. "
+                                  "slice assignment and bulk operations whose argument is a list, a tuple, a generator or the "
+                                  "live owning collection of another owner; inputs of known finding F-C04-1 excluded",
                                   "%d sequences of up to 10 calls, seed %d" % (n, seed))
     return [s], v
 
